@@ -676,15 +676,46 @@ def identifier_targets_by_binding():
                                 limits=dict(steps=5000), meta=dict(gen='identifier-target-%s-%s' % (wname, vname), sample=False)))
     return out
 
+def nodes_evaluated_twice(rng):
+    """every operator and built-in applied to a literal and a parameter inside a routine that is called several times with other values (and
+    inside a loop): a node must not remember anything from its first evaluation"""
+    body = ['  OUTPUT a + 1, " ", 1 + a, " ", a - 2, " ", 2 - a, " ", a * 3, " ", 3 * a, " ", a / 4, " ", 4 / (a + 100), " ", a DIV 2, " ", 7 DIV (a + 100), " ", a MOD 3, " ", 10 MOD (a + 100)',
+            '  OUTPUT x + 0.5, " ", 0.5 + x, " ", x * 2, " ", 2 * x, " ", x / 2, " ", x - 1, " ", a + x, " ", x + a, " ", -a, " ", -x',
+            '  OUTPUT a = 3, " ", 3 = a, " ", a <> 3, " ", a < 3, " ", 3 < a, " ", a <= 3, " ", a > 3, " ", a >= 3, " ", x < 2.5, " ", 2.5 < x, " ", a < x, " ", x = 2',
+            '  OUTPUT s & "!", " ", "!" & s, " ", s = "ab", " ", "ab" = s, " ", s <> "b", " ", LENGTH(s), " ", s & a, " ", a & s',
+            '  OUTPUT d = 1/2/2003, " ", 1/2/2003 = d, " ", d <> 1/2/2003, " ", d < 1/2/2003, " ", 1/2/2003 < d, " ", d <= 1/2/2003, " ", d > 1/2/2003, " ", 1/2/2003 >= d',
+            '  OUTPUT DAY(d), " ", MONTH(d), " ", YEAR(d), " ", DAYINDEX(d), " ", d, " ", SETDATE(1, 2, 2003) = d, " ", d = SETDATE(DAY(d), MONTH(d), YEAR(d))',
+            '  OUTPUT b AND TRUE, " ", TRUE AND b, " ", b OR FALSE, " ", NOT b, " ", b = TRUE, " ", (a > 2) AND b',
+            '  OUTPUT c = \'k\', " ", \'k\' = c, " ", c < \'m\', " ", ASC(c), " ", c & "x", " ", TO_UPPER(c)',
+            '  OUTPUT e = v2, " ", v2 = e, " ", e <> v2, " ", e + 1, " ", e - 1, " ", e',
+            '  OUTPUT MID("abcdef", (a + 300) MOD 3 + 1, 2), " ", LEFT(s & "xyz", 2), " ", RIGHT("xyz" & s, 2), " ", INT(x), " ", INT(x + 0.5), " ", NUM_TO_STR(a), " ", STR_TO_NUM("" & a) + 1']
+    vals = [('3', '2.5', '"ab"', '1/2/2003', 'TRUE', "'k'", 'v2'), ('0', '0.0', '""', '31/12/1999', 'FALSE', "'a'", 'v1'), ('17', '100.25', '"b"', '2/2/2003', 'TRUE', "'z'", 'v3'),
+            ('0 - 5', '0.0 - 1.5', '"ab"', '1/2/2003', 'FALSE', "'k'", 'v2')]
+    L = ['TYPE E = (v1, v2, v3)', 'PROCEDURE Ops(BYVAL a : INTEGER, BYVAL x : REAL, BYVAL s : STRING, BYVAL d : DATE, BYVAL b : BOOLEAN, BYVAL c : CHAR, BYVAL e : E)'] + body + ['ENDPROCEDURE']
+    order = list(vals); rng.shuffle(order)
+    calls = ['CALL Ops(%s)' % ', '.join(v) for v in order + order[:2]]
+    out = [Case(J(L + calls), limits=dict(steps=20000), meta=dict(gen='nodes-evaluated-twice', sample=False))]
+    # the same statements in a loop over arrays of values
+    n = len(vals)
+    L2 = ['TYPE E = (v1, v2, v3)', 'DECLARE ia : ARRAY[1:%d] OF INTEGER' % n, 'DECLARE xa : ARRAY[1:%d] OF REAL' % n, 'DECLARE sa : ARRAY[1:%d] OF STRING' % n, 'DECLARE da : ARRAY[1:%d] OF DATE' % n,
+          'DECLARE ba : ARRAY[1:%d] OF BOOLEAN' % n, 'DECLARE ca : ARRAY[1:%d] OF CHAR' % n, 'DECLARE ea : ARRAY[1:%d] OF E' % n,
+          'DECLARE a : INTEGER', 'DECLARE x : REAL', 'DECLARE s : STRING', 'DECLARE d : DATE', 'DECLARE b : BOOLEAN', 'DECLARE c : CHAR', 'DECLARE e : E']
+    for i, v in enumerate(vals):
+        for arr, lit in zip(('ia', 'xa', 'sa', 'da', 'ba', 'ca', 'ea'), v):
+            L2.append('%s[%d] <- %s' % (arr, i + 1, lit))
+    L2 += ['FOR i <- 1 TO %d' % n, '  a <- ia[i]', '  x <- xa[i]', '  s <- sa[i]', '  d <- da[i]', '  b <- ba[i]', '  c <- ca[i]', '  e <- ea[i]'] + body + ['NEXT i']
+    out.append(Case(J(L2), limits=dict(steps=20000), meta=dict(gen='nodes-evaluated-twice', sample=False)))
+    return out
+
 def extra(pid, tier, rng):
     """the families each property's check runs in addition to its own generators"""
     if pid == 'C01':
         c = alias_then_replace() + shadowed_types() + deref_node_reuse() + far_seek() + far_dates_output() + far_dates_files()[0] + pedantic_tail_with_files() \
             + array_cross_types() + redeclared_bounds(rng) + scope_change_in_activation(rng) + empty_comment_faults()[:40] + call_type_matrix()
-        c += identifier_targets_by_binding() + lexer_failure_then_probe(rng) + side_effects_in_subexpressions() + array_scope_matrix()[::3] + scalar_and_array_share_a_name() + pointer_to_implicit_record() + failing_record_creation() + runfile_with_handles() + declaredness_changes_per_activation()[::2] + records_with_array_fields_in_files()
+        c += nodes_evaluated_twice(rng) + identifier_targets_by_binding() + lexer_failure_then_probe(rng) + side_effects_in_subexpressions() + array_scope_matrix()[::3] + scalar_and_array_share_a_name() + pointer_to_implicit_record() + failing_record_creation() + runfile_with_handles() + declaredness_changes_per_activation()[::2] + records_with_array_fields_in_files()
         c += rng.sample(retyped_sites(rng, n_orders=1), 40) + rng.sample(nested_undeclared(rng), 20) + undeclared_field_vs_names()[::3]
         return c
-    if pid == 'C02': return lexer_failure_then_probe(rng) + concat_matrix() + retyped_sites(rng, ['plus', 'minus', 'div', 'concat', 'less', 'not', 'and', 'length', 'mid'])
+    if pid == 'C02': return nodes_evaluated_twice(rng) + lexer_failure_then_probe(rng) + concat_matrix() + retyped_sites(rng, ['plus', 'minus', 'div', 'concat', 'less', 'not', 'and', 'length', 'mid'])
     if pid == 'C03': return [c for c in identifier_targets_by_binding() if '-for-' in c.meta['gen']] + retyped_sites(rng, ['while', 'repeat', 'if', 'case', 'for', 'forstep', 'not']) + shadowed_condition(rng)
     if pid == 'C04': return identifier_targets_by_binding() + array_scope_matrix() + side_effects_in_subexpressions() + call_type_matrix() + scope_change_in_activation(rng) + nested_undeclared(rng) + alias_then_replace()
     if pid == 'C05': return [c for c in identifier_targets_by_binding() if 'input' in c.meta['gen'] or 'assign' in c.meta['gen']] + call_type_matrix() + array_cross_types() + retyped_sites(rng, ['store', 'byval', 'fn', 'index']) + shadowed_types()
@@ -702,8 +733,8 @@ def extra(pid, tier, rng):
     if pid == 'C14': return far_seek() + records_with_array_fields_in_files()
     if pid == 'C15': return far_dates_files()[0] + far_dates_output() + [c for c in identifier_targets_by_binding() if 'readfile' in c.meta['gen']]
     if pid == 'C16': return pedantic_tail_with_files() + side_effects_in_subexpressions() + runfile_with_handles()
-    if pid == 'C17': return lexer_failure_then_probe(rng)
-    if pid == 'C18': return far_dates_output()
-    if pid == 'C19': return array_cross_types() + shadowed_types()
+    if pid == 'C17': return lexer_failure_then_probe(rng) + nodes_evaluated_twice(rng)
+    if pid == 'C18': return far_dates_output() + nodes_evaluated_twice(rng)
+    if pid == 'C19': return array_cross_types() + shadowed_types() + nodes_evaluated_twice(rng)
     if pid == 'C20': return nested_undeclared(rng) + shadowed_condition(rng) + pedantic_tail_with_files() + declaredness_changes_per_activation()
     return []
